@@ -141,7 +141,9 @@ the listing order demanded is oldest-created first, insertion order among equal 
 equal-created_at group may permute, so only the created_at sequence, membership, matching and
 distinctness are demanded there. -/
 def c11 (dump : List Task) (exactOrder : Bool) (q : Query) (offset limit : Int) (out : Out) : List String :=
-  let pred := (q.normalize true).matches
+  -- "times compared as instants at millisecond precision": the query's operands are normalised, and so is the
+  -- stored task before it is compared (stored times are normalised already when C12 holds: no difference then)
+  let pred := fun (t : Task) => (q.normalize true).matches t.normalizeTime
   let expect := findLoop pred (byCreated dump) offset limit
   match out with
   | .tasks r =>
